@@ -242,6 +242,18 @@ func (m *Manager) RouteAllTrafficToNewVersion(c *TrafficRoutingContext) (bool, e
 	// build up the network provider
 	stableService := c.ObjectRef[0].Service
 	cServiceName := getCanaryServiceName(stableService, c.OnlyTrafficRouting, c.DisableGenerateCanaryService)
+	// the canary service is created by the first step that routes traffic. If no step did (none of them
+	// configures traffic), the stable service still selects every pod: do not send traffic to a service that does not exist.
+	if cServiceName != stableService {
+		canaryService := &corev1.Service{}
+		err := m.Get(context.TODO(), client.ObjectKey{Namespace: c.Namespace, Name: cServiceName}, canaryService)
+		if errors.IsNotFound(err) {
+			klog.Infof("%s canary service(%s) does not exist, no traffic to route to the new version", c.Key, cServiceName)
+			return false, nil
+		} else if err != nil {
+			return false, err
+		}
+	}
 	trController, err := newNetworkProvider(m.Client, c, stableService, cServiceName)
 	if err != nil {
 		klog.Errorf("%s newTrafficRoutingController failed: %s", c.Key, err.Error())
